@@ -25,9 +25,20 @@ CELLBASE = {'A': 1, 'B': 1000, 'C': 100000}
 HOOKS = [['call', 'H', None], ['cell', 'X9'], ['var', 'v_hook'], ['range', 'X1', 'Y2'], ['call', 'HOOKED', None]]
 
 
-def build(which, hook):
-    """hook(kind, P) -> value is called at every interposition point of this parser"""
+def build(which, hook, mode=0):
+    """hook(kind, P) -> value is called at every interposition point of this parser.
+    mode 0: the listener evaluates, then hands the value to the setter; mode 1: it hands a constant to the setter first and
+    evaluates afterwards (an audit listener); mode 2: it evaluates and sets nothing (the registered / computed value stays)"""
     P = hot().Parser()
+
+    def deliver(setter, kind, default_const):
+        if mode == 0:
+            setter(hook(kind, P))
+        elif mode == 1:
+            setter(default_const)
+            hook(kind, P)
+        else:
+            hook(kind, P)
     for k, v in BIND[which].items():
         P.set_variable(k, list(v) if isinstance(v, list) else v)
     base = CELLBASE[which]
@@ -37,23 +48,27 @@ def build(which, hook):
 
     def cells(cell, setter):
         if cell.label == 'X9':
-            setter(hook('cell', P))
+            deliver(setter, 'cell', 31)
         else:
             setter(base + cell.row.index * 10 + cell.col.index)
 
     def ranges(s, e, setter):
         if s.label == 'X1':
-            setter(hook('range', P))
+            deliver(setter, 'range', [32, 33])
         else:
             setter([base + s.row.index, base + e.row.index])
 
     def variables(name, setter):
         if name == 'v_hook':
-            setter(hook('var', P))
+            if mode == 2:
+                setter(34)          # (an unregistered name needs some value)
+                hook('var', P)
+            else:
+                deliver(setter, 'var', 34)
 
     def funcs(name, args, setter):
         if name == 'HOOKED':
-            setter(hook('funcevent', P))
+            deliver(setter, 'funcevent', 35)
     P.on('callCellValue', cells)
     P.on('callRangeValue', ranges)
     P.on('callVariable', variables)
@@ -99,7 +114,8 @@ def nested_case(draw):
     fb = draw(inner_text)
     if depth2:
         fb = gf.render(['bin', '+', ['call', 'H', []], draw(trees(False, 3))]) if draw(st.booleans()) else 'ID(X9)&' + fb
-    return {'fa': fa, 'fb': fb, 'fc': draw(inner_text), 'same': draw(st.booleans()), 'order': draw(st.sampled_from(['AB', 'BA'])), 'ret': draw(st.sampled_from(['const', 'inner', 'inner']))}
+    return {'fa': fa, 'fb': fb, 'fc': draw(inner_text), 'same': draw(st.booleans()), 'order': draw(st.sampled_from(['AB', 'BA'])), 'ret': draw(st.sampled_from(['const', 'inner', 'inner'])),
+            'mode': draw(st.sampled_from([0, 0, 1, 2]))}
 
 
 def derive(ret, outcome):
@@ -114,11 +130,12 @@ def check_nested(case):
     fb, fc = case['fb'], case['fc']
     inner_on_a = case['same']
     # --- solo outcomes, innermost first (callbacks return values without evaluating anything)
-    c_solo = build('A' if inner_on_a else 'C', lambda k, P: 0).parse(fc)
+    mode = case.get('mode', 0)
+    c_solo = build('A' if inner_on_a else 'C', lambda k, P: 0, mode).parse(fc)
     vc = derive(case['ret'], c_solo)
-    b_solo = build('A' if inner_on_a else 'B', lambda k, P: vc).parse(fb)
+    b_solo = build('A' if inner_on_a else 'B', lambda k, P: vc, mode).parse(fb)
     vb = derive(case['ret'], b_solo)
-    a_solo = build('A', lambda k, P: vb).parse(fa_text)
+    a_solo = build('A', lambda k, P: vb, mode).parse(fa_text)
     # --- nested run
     problems = []
     holder = {}
@@ -154,13 +171,13 @@ def check_nested(case):
             problems.append('interposed evaluation of %r (at a %s point) gave %r, alone it gives %r' % (fb, kind, r, b_solo))
         return vb
     if case['order'] == 'AB':
-        holder['A'] = build('A', hook_a)
-        holder['B'] = build('B', hook_b)
-        holder['C'] = build('C', hook_c)
+        holder['A'] = build('A', hook_a, mode)
+        holder['B'] = build('B', hook_b, mode)
+        holder['C'] = build('C', hook_c, mode)
     else:
-        holder['C'] = build('C', hook_c)
-        holder['B'] = build('B', hook_b)
-        holder['A'] = build('A', hook_a)
+        holder['C'] = build('C', hook_c, mode)
+        holder['B'] = build('B', hook_b, mode)
+        holder['A'] = build('A', hook_a, mode)
     r = holder['A'].parse(fa_text)
     d = 'outer %r on A, inner %r on %s, depth-2 %r (construction order %s): ' % (fa_text, fb, 'A itself' if inner_on_a else 'B', fc, case['order'])
     if problems:
@@ -171,7 +188,7 @@ def check_nested(case):
 
 
 def nested_classes(case):
-    out = ['same-parser' if case['same'] else 'other-parser', 'order:' + case['order']]
+    out = ['same-parser' if case['same'] else 'other-parser', 'order:' + case['order'], 'listener-mode:%d' % case.get('mode', 0)]
     toks = gf.tokens(case['fa'])
     hook_toks = [i for i, t in enumerate(toks) if t in ('X9', 'v_hook', 'X1:Y2') or t.startswith('H(') or t.startswith('HOOKED(')]
     if hook_toks and hook_toks[0] < len(toks) - 2:
@@ -475,12 +492,14 @@ op_s = st.one_of(
     st.tuples(st.just('on'), st.sampled_from(['callCellValue', 'callRangeValue', 'callVariable', 'callFunction']), st.integers(0, 9)),
     st.tuples(st.just('once'), st.sampled_from(['callCellValue', 'callRangeValue', 'callVariable', 'callFunction']), st.integers(0, 9)),
     st.tuples(st.just('off'), st.sampled_from(['callCellValue', 'callRangeValue', 'callVariable', 'callFunction'])),
-    st.tuples(st.just('parse'), st.sampled_from(['v_only+1', 'ONLYA(1)', 'B2', 'A1:B2', 'SUM(1,2)', 'TRUE', '1+'])),
+    st.tuples(st.just('parse'), st.sampled_from(['v_only+1', 'ONLYA(1)', 'B2', 'A1:B2', 'SUM(1,2)', 'TRUE', '1+', 'PI()', 'TRUE()+NA()', 'ONLYA()'])),
+    st.tuples(st.just('on_mutating'), st.sampled_from(['callFunction'])),
 ).map(list)
-PROBES = ['v_only', 'v_new', 'v_a', 'TRUE', 'ONLYA(1)', 'MY.FN(1)', 'SUM(1,2)', 'ID(3)', 'B2', 'A1:B2', 'ISBLANK(B2)', 'v_only+ONLYA(2)']
+PROBES = ['v_only', 'v_new', 'v_a', 'TRUE', 'ONLYA(1)', 'MY.FN(1)', 'SUM(1,2)', 'ID(3)', 'B2', 'A1:B2', 'ISBLANK(B2)', 'v_only+ONLYA(2)', 'PI()>3', 'TRUE()', 'IF(TRUE(),1,2)']
 
 
-PROBE_WANT = [(None, '#NAME?'), (None, '#NAME?'), (40, None), (True, None), (None, '#NAME?'), (None, '#NAME?'), (3, None), (None, '#NAME?'), (None, None), (None, None), (True, None), (None, '#NAME?')]
+PROBE_WANT = [(None, '#NAME?'), (None, '#NAME?'), (40, None), (True, None), (None, '#NAME?'), (None, '#NAME?'), (3, None), (None, '#NAME?'), (None, None), (None, None), (True, None), (None, '#NAME?'),
+              (True, None), (True, None), (1, None)]
 
 
 def check_bindings(case):
@@ -501,6 +520,9 @@ def check_bindings(case):
             A.set_function(op[1], lambda *a, k=op[2]: 9000 + k)
         elif op[0] in ('on', 'once'):
             getattr(A, op[0])(op[1], lambda *args, k=op[2]: args[-1](7000 + k))
+        elif op[0] == 'on_mutating':
+            # a journalling listener that edits the argument list it is handed (its own business - but nobody else's)
+            A.on(op[1], lambda name, args, setter: args.insert(0, name))
         elif op[0] == 'off':
             A.off(op[1])
         else:
@@ -517,10 +539,10 @@ def check_bindings(case):
 
 LAWS = [
     Law('nested', check_nested, strategy=nested_case(), key=nested_key, classes=nested_classes, quick=3000, thorough=200000, shards=(16, 16),
-        required=('same-parser', 'other-parser', 'order:AB', 'order:BA', 'continues-after-hook', 'hook-first', 'hook:call', 'hook:cell', 'hook:var', 'hook:range', 'depth2'),
+        required=('same-parser', 'other-parser', 'order:AB', 'order:BA', 'continues-after-hook', 'hook-first', 'hook:call', 'hook:cell', 'hook:var', 'hook:range', 'depth2', 'listener-mode:1', 'listener-mode:2'),
         nontrivial=lambda c: 'continues-after-hook' in nested_classes(c) and len(c['fb']) >= 3,
         rule='outer formula on parser A with 1-3 interposition points (a custom function, or a listener on a cell / range / variable / function event) at generated structural positions; at each point a complete evaluation of a second formula runs on pre-built parser B '
-             '(or on A itself), whose own callback evaluates a third formula (depth 2); both construction orders; oracle: every inner outcome equals that formula\'s solo outcome and A\'s outcome equals the solo run in which the callbacks return the same values without evaluating; '
+             '(or on A itself), whose own callback evaluates a third formula (depth 2); both construction orders; listeners either evaluate and then answer, answer first and evaluate afterwards, or evaluate and answer nothing; oracle: every inner outcome equals that formula\'s solo outcome and A\'s outcome equals the solo run in which the callbacks return the same values without evaluating; '
              'non-trivial = the outer formula continues after the interposition point and the inner formula has at least 3 characters'),
     Law('threads_baton', check_threads, strategy=thread_case, quick=1500, thorough=60000, shards=(16, 16),
         classes=lambda c: (('switch-inside-parse' if switches(c) >= 2 else 'few-switches'),), required=('switch-inside-parse',),
